@@ -95,7 +95,7 @@ theorem Wit.all_le {t : Table κ} {d : Dist} {j : κ} {w : List (κ × Dist)} (h
     intro v hv
     obtain ⟨x, hx, rfl⟩ := List.mem_map.1 hv
     exact h2 x hx
-  have := (List.subperm_of_subset h1 hsub).length_le
+  have := List.Nodup.length_le_of_subset h1 hsub
   simp at this
   omega
 
@@ -274,7 +274,9 @@ theorem loop_terminates (pick : Nat → List (Item κ) → Nat) :
       have hlt : pick n (x :: xs) % (x :: xs).length < (x :: xs).length := Nat.mod_lt _ (by simp)
       have hit := getD_mem_of_lt (x :: xs) _ x hlt
       have hlen : ((x :: xs).eraseIdx (pick n (x :: xs) % (x :: xs).length)).length = xs.length := by
-        rw [List.length_eraseIdx]; simp [hlt]
+        rw [List.length_eraseIdx]
+        simp only [List.length_cons] at hlt ⊢
+        rw [if_pos hlt]; omega
       have hsub : ∀ y ∈ (x :: xs).eraseIdx (pick n (x :: xs) % (x :: xs).length), y ∈ x :: xs :=
         fun y hy => List.mem_of_mem_eraseIdx hy
       have hinv' : TInv (V := V) (Smax := Smax) t ((x :: xs).eraseIdx (pick n (x :: xs) % (x :: xs).length)) :=
@@ -310,4 +312,93 @@ theorem tableOf_terminates (pick : Nat → List (Item κ) → Nat) (src : κ) (f
     omega
 
 end Term
+end Okane.Price
+
+/-! ## instantiation to a repository -/
+namespace Okane.Price
+variable {κ : Type} [DecidableEq κ]
+
+/-- every commodity mentioned in the repository (with repetitions). -/
+def nodes (repo : Builder κ) : List κ := repo.flatMap fun kv => kv.1 :: kv.2.map Prod.fst
+
+/-- every record date of the repository. -/
+def allDates (repo : Builder κ) : List Date :=
+  repo.flatMap fun kv => kv.2.flatMap fun je => je.2.recs.map Prod.fst
+
+def foldMax (l : List Int) (m : Int) : Int := l.foldl max m
+
+theorem foldMax_ge (l : List Int) : ∀ m, m ≤ foldMax l m ∧ ∀ x ∈ l, x ≤ foldMax l m := by
+  induction l with
+  | nil => intro m; exact ⟨Int.le_refl _, by simp⟩
+  | cons a l ih =>
+    intro m
+    obtain ⟨h1, h2⟩ := ih (max m a)
+    simp only [foldMax, List.foldl_cons] at h1 h2 ⊢
+    refine ⟨by omega, ?_⟩
+    intro x hx
+    rcases List.mem_cons.1 hx with rfl | hx
+    · omega
+    · exact h2 x hx
+
+/-- the greatest staleness any record can have at `D` (at least 0). -/
+def staleMax (repo : Builder κ) (D : Date) : Int :=
+  foldMax ((allDates repo).map fun d => D.dayNumber - d.dayNumber) 0
+
+/-- iterations `compute_price_table(_, D)` can take on `repo`, whatever the pop order. -/
+def fuelBound (repo : Builder κ) (D : Date) : Nat :=
+  2 * ((nodes repo).length * rankTop (nodes repo) (staleMax repo D)) + 1
+
+theorem asOf_mem (recs : List (Date × Rat)) (D : Date) (d : Date) (r : Rat) (h : asOf recs D = some (d, r)) :
+    (d, r) ∈ recs ∧ d ≤ D := by
+  rw [asOf_eq_getLast] at h
+  obtain ⟨ys, hys⟩ := List.getLast?_eq_some_iff.1 h
+  have hm : (d, r) ∈ recs.takeWhile fun r => decide (r.1 ≤ D) := by rw [hys]; simp
+  refine ⟨(List.takeWhile_sublist _).subset hm, ?_⟩
+  have key : ∀ (l : List (Date × Rat)) (x : Date × Rat), x ∈ l.takeWhile (fun r => decide (r.1 ≤ D)) → x.1 ≤ D := by
+    intro l
+    induction l with
+    | nil => intro x hx; simp at hx
+    | cons a l ih =>
+      intro x hx
+      rw [List.takeWhile_cons] at hx
+      by_cases hp : a.1 ≤ D
+      · simp only [hp, decide_true, if_true, List.mem_cons] at hx
+        rcases hx with rfl | hx
+        · exact hp
+        · exact ih x hx
+      · simp [hp] at hx
+  exact key recs (d, r) hm
+
+theorem priceTable_terminates (cfg : Cfg κ) (repo : Builder κ) (T : κ) (D : Date)
+    (hord : ∀ p l x, x ∈ cfg.ord p l → x ∈ l) (hfuel : fuelBound repo D ≤ cfg.fuel) :
+    ∃ tbl, priceTable cfg repo T D = .ok tbl := by
+  unfold priceTable
+  apply tableOf_terminates (edgesAt cfg.ord repo D) (V := nodes repo) (Smax := staleMax repo D)
+  · intro j e he
+    rw [mem_edgesAt] at he
+    obtain ⟨inner, entry, d, hg, hmem, _⟩ := he
+    have h1 := hord _ _ _ hmem
+    have h2 := AMap.mem_of_get?_some repo hg
+    unfold nodes
+    rw [List.mem_flatMap]
+    exact ⟨(j, inner), h2, List.mem_cons_of_mem _ (List.mem_map.2 ⟨(e.to, entry), h1, rfl⟩)⟩
+  · intro j e he
+    rw [mem_edgesAt] at he
+    obtain ⟨inner, entry, d, hg, hmem, hasof, _, hst⟩ := he
+    obtain ⟨hrec, hle⟩ := asOf_mem _ _ _ _ hasof
+    have h1 := hord _ _ _ hmem
+    have h2 := AMap.mem_of_get?_some repo hg
+    have hd : d ∈ allDates repo := by
+      unfold allDates
+      rw [List.mem_flatMap]
+      refine ⟨(j, inner), h2, ?_⟩
+      rw [List.mem_flatMap]
+      exact ⟨(e.to, entry), h1, List.mem_map.2 ⟨(d, e.rate), hrec, rfl⟩⟩
+    have hle' : d.dayNumber ≤ D.dayNumber := hle
+    refine ⟨by omega, ?_⟩
+    rw [hst]
+    exact (foldMax_ge _ 0).2 _ (List.mem_map.2 ⟨d, hd, rfl⟩)
+  · exact hfuel
+  · exact (foldMax_ge _ 0).1
+
 end Okane.Price
